@@ -62,6 +62,12 @@ Unary == {Pre("-", x) : x \in {A_, IntL(3)}} \cup {Post(p, x) : p \in {"++", "--
 Mixed == {Bin(o, u, B_) : o \in Ops, u \in Unary} \cup {Bin(o, B_, u) : o \in Ops, u \in Unary}
          \cup {Pre("-", Bin(o, A_, B_)) : o \in Ops} \cup {Post("++", Bin(o, A_, B_)) : o \in Ops}
 Terns == {Tern(Bin(o, A_, B_), C_, D_) : o \in Ops} \cup {Tern(A_, Bin(o, B_, C_), D_) : o \in Ops}
+         \* only the selected part of a ternary is evaluated: a failing part that is not selected does not fail the render
+         \cup {Tern(c, t, f) : c \in {BoolL(TRUE), BoolL(FALSE), Bin("==", B_, B_), Bin("!=", B_, B_)},
+                                t \in {A_, Var("zz"), Bin("/", A_, IntL(0)), Bin("+", A_, StrL("s"))},
+                                f \in {B_, Var("zz"), Bin("%", A_, IntL(0)), Dot(A_, "nope")}}
+         \cup {Tern(Bin("==", B_, IntL(0)), IntL(0), Bin("/", A_, B_)), Tern(Bin("!=", B_, IntL(0)), Bin("/", A_, B_), IntL(0)),
+               Tern(BoolL(TRUE), Tern(BoolL(FALSE), Var("zz"), A_), Var("zz"))}
          \cup {Tern(A_, B_, Bin(o, C_, D_)) : o \in Ops} \cup {Bin(o, Tern(A_, B_, C_), D_) : o \in Ops}
          \cup {Bin(o, A_, Tern(B_, C_, D_)) : o \in Ops}
          \cup {Tern(A_, B_, Tern(C_, D_, A_)), Tern(A_, Tern(B_, C_, D_), A_), Tern(Tern(A_, B_, C_), D_, A_),
